@@ -118,8 +118,10 @@ func allSpecs() []*HarnessSpec {
 			Thorough: []Grid{{"pos": rng(0, 62)}},
 			Note:     "a symbolic pair of neighbours at position i of a 64-key list (equal / swapped / prefix / bytes >= 0x80 are all models of the pair)"},
 		{Name: "l3_longrun", Pkg: "trie", Property: "C08", Witness: 1,
-			Quick:    []Grid{{"run": {127, 128, 2047, 16384, 32767, 32768, 32769}, "opt": {16, 2}}},
-			Thorough: []Grid{{"run": {0, 1, 126, 127, 128, 129, 2047, 2048, 16383, 16384, 32766, 32767, 32768, 32769, 40000}, "opt": {16, 0, 2, 4, 9}}},
+			Quick: []Grid{{"run": {127, 128, 2047, 16384, 32767, 32768, 32769}, "opt": {16, 2}},
+				{"run": {2047, 16384, 32767, 32768, 40000, 65535, 65536}, "opt": {16, 4}, "fan": {16}}},
+			Thorough: []Grid{{"run": {0, 1, 126, 127, 128, 129, 2047, 2048, 16383, 16384, 32766, 32767, 32768, 32769, 40000}, "opt": {16, 0, 2, 4, 9}},
+				{"run": {0, 1, 127, 2047, 16384, 32767, 32768, 40000, 65534, 65535, 65536, 70000}, "opt": {16, 0, 2, 4, 9}, "fan": {11, 16}}},
 			Note:     "shared runs up to and beyond 65535 half-bytes with symbolic tails: the builder refuses with ErrStepTooLong (only beyond the documented 16 KiB) or every key is found"},
 	}...)
 }
@@ -202,11 +204,21 @@ func apiSpecs() []*HarnessSpec {
 		{"C18", 18, optsDistinct, optsFew, []int{1, 0, 2}, []int{0}, []int{0}, "Stat: KeyCnt = number of retained keys, level totals consistent"},
 	} {
 		p := p
+		q2, t2 := l2Grids("quick", p.check, p.opts, p.small, p.encs, p.lqQ), l2Grids("thorough", p.check, p.opts, p.small, p.encs, p.lqT)
+		if p.check == 1 || p.check == 2 || p.check == 9 {
+			// three keys of length <= 2 in four shapes (a key and two longer keys sharing a first byte, ...)
+			q2 = append(q2, Grid{"n": {3}, "L": {2}, "lens": {21, 22, 25, 26}, "opt": {3, 1}, "enc": {1}, "check": {p.check}, "lq": {0}, "cv": {-1}})
+		}
+		if p.check == 1 {
+			// variable-width values of lengths 0..2 on three keys (width sums that coincide)
+			q2 = append(q2, Grid{"n": {3}, "L": {1}, "lens": {7}, "opt": {16}, "enc": {2}, "check": {p.check}, "lq": {0}, "cv": {-1}, "vl": {2}})
+			t2 = append(t2, Grid{"n": {3}, "L": {1}, "lens": rng(0, 7), "opt": p.small, "enc": {2}, "check": {p.check}, "lq": {0}, "cv": {-1}, "vl": {2, 3}})
+		}
 		out = append(out, &HarnessSpec{Name: "l2_api", Pkg: "trie", Property: p.prop, Witness: 1,
-			Quick:    l2Grids("quick", p.check, p.opts, p.small, p.encs, p.lqQ),
-			Thorough: l2Grids("thorough", p.check, p.opts, p.small, p.encs, p.lqT),
+			Quick:    q2,
+			Thorough: t2,
 			Note:     "L2 (fully symbolic key sets): " + p.note})
-		skQ, skT := []int{0, 1, 2, 3, 4, 5}, []int{0, 1, 2, 3, 4, 5, 6}
+		skQ, skT := []int{0, 1, 2, 3, 4, 5, 7}, []int{0, 1, 2, 3, 4, 5, 6, 7, 8, 9}
 		enc3 := p.encs[:1]
 		lq3Q, lq3T := p.lqQ, p.lqT
 		if len(lq3Q) > 1 {
@@ -271,8 +283,8 @@ func apiSpecs() []*HarnessSpec {
 			{"n": {2}, "L": {2}, "lens": rng(0, 8), "opt": optsDistinct, "enc": {1, 0, 3}, "check": {19}, "lq": {0}, "cv": {0, 2}, "alpha": {1}}},
 		Note: "String() on every build path: no panic, one line per node, leaf lines carry the retained (concrete) values in key order"})
 	out = append(out, &HarnessSpec{Name: "l3_api", Pkg: "trie", Property: "C19", Witness: 1,
-		Quick:    []Grid{{"skel": {0, 1, 2, 3, 4, 5, 6}, "opt": {16, 9}, "enc": {1}, "runs": {0, 2}, "check": {19}, "lq": {0}}},
-		Thorough: []Grid{{"skel": {0, 1, 2, 3, 4, 5, 6}, "opt": optsDistinct, "enc": {1, 3}, "runs": {0, 1, 2, 3}, "check": {19}, "lq": {0}}},
+		Quick:    []Grid{{"skel": {0, 1, 2, 3, 4, 5, 6, 7, 8}, "opt": {16, 9}, "enc": {1}, "runs": {0, 2}, "check": {19}, "lq": {0}, "loaded": {0, 1}}},
+		Thorough: []Grid{{"skel": {0, 1, 2, 3, 4, 5, 6, 7, 8, 9}, "opt": optsDistinct, "enc": {1, 3}, "runs": {0, 1, 2, 3}, "check": {19}, "lq": {0}, "loaded": {0, 1}}},
 		Note:     "String() on skeleton tries incl. short-node tables and a 257-bit root"})
 	// ---- C05 round trip / determinism / residue ----
 	out = append(out, &HarnessSpec{Name: "l2_api", Pkg: "trie", Property: "C05", Witness: 1,
@@ -283,8 +295,8 @@ func apiSpecs() []*HarnessSpec {
 			{"n": {3}, "L": {2}, "lens": rng(0, 26), "opt": optsFew, "enc": {1}, "check": {5}, "lq": {1, 2}, "cv": {-1}}},
 		Note: "Unmarshal(Marshal(t)) answers Get/GetID/RangeGet/Search/scan/Stat identically for a symbolic query (codec stub, A-PB); re-marshal and second build give deep-equal messages under all map iteration orders; byte identity is asserted on the native replays only"})
 	out = append(out, &HarnessSpec{Name: "l3_api", Pkg: "trie", Property: "C05", Witness: 1,
-		Quick:    []Grid{{"skel": {0, 1, 2, 4, 5}, "opt": {16, 9}, "enc": {1}, "runs": {0, 2}, "check": {5}, "lq": {1, 2}}},
-		Thorough: []Grid{{"skel": {0, 1, 2, 3, 4, 5, 6}, "opt": optsDistinct, "enc": {1, 2}, "runs": {0, 2}, "check": {5}, "lq": {0, 1, 2, 3, 4}}},
+		Quick:    []Grid{{"skel": {0, 1, 2, 4, 5, 10}, "opt": {16, 9}, "enc": {1}, "runs": {0, 2}, "check": {5}, "lq": {1, 2}}},
+		Thorough: []Grid{{"skel": {0, 1, 2, 3, 4, 5, 6, 7, 8, 10}, "opt": optsDistinct, "enc": {1, 2}, "runs": {0, 2}, "check": {5}, "lq": {0, 1, 2, 3, 4}}},
 		Note:     "L3: round trip and determinism on skeleton tries (short-node tables with ties in the bitmap-frequency table)"})
 	out = append(out, &HarnessSpec{Name: "l2_residue", Pkg: "trie", Property: "C05", Witness: 1,
 		Quick: []Grid{{"L": {1}, "na": {2}, "lensa": {3}, "opta": {9}, "nb": {1}, "lensb": {1}, "optb": {16}, "nops": {2}, "seq": rng(0, 15), "lq": {1}},
@@ -309,6 +321,7 @@ func apiSpecs() []*HarnessSpec {
 	// ---- C11 ----
 	out = append(out, &HarnessSpec{Name: "l2_nowrite", Pkg: "trie", Property: "C11", Witness: 1,
 		Quick: []Grid{{"n": {0, 1}, "L": {2}, "lens": {0, 1, 2}, "opt": {16, 9}, "enc": {1}, "loaded": {0, 1}, "lq": {1}, "api": rng(0, 6)},
+			{"n": {1, 2}, "L": {1}, "lens": rng(0, 3), "opt": {16}, "enc": {1}, "loaded": {2}, "lq": {1}, "api": {0, 1, 2, 4, 5}},
 			{"n": {2}, "L": {2}, "lens": rng(0, 8), "opt": {16, 9}, "enc": {1, 4}, "loaded": {0, 1}, "lq": {2}, "api": {0, 1, 2, 4}},
 			{"n": {2}, "L": {1}, "lens": rng(0, 3), "opt": {9}, "enc": {1}, "loaded": {0, 1}, "lq": {1}, "api": {3, 5, 6}, "alpha": {1}}},
 		Thorough: []Grid{{"n": {0, 1}, "L": {2}, "lens": {0, 1, 2}, "opt": optsDistinct, "enc": {1, 0, 2}, "loaded": {0, 1}, "lq": {0, 1, 2}, "api": rng(0, 6)},
@@ -351,7 +364,7 @@ func apiSpecs() []*HarnessSpec {
 	// ---- C17 ----
 	out = append(out, &HarnessSpec{Name: "l2_size_rel", Pkg: "trie", Property: "C17", Witness: 2,
 		Quick: []Grid{{"n": {1}, "L": {2}, "lens": {0, 1, 2}, "plen": {64, 4096}},
-			{"n": {2}, "L": {2}, "lens": rng(0, 8), "plen": {64, 4096}},
+			{"n": {2}, "L": {2}, "lens": rng(0, 8), "plen": {64, 4096, 9000, 16384}},
 			{"n": {3}, "L": {1}, "lens": rng(0, 7), "plen": {64}}},
 		Thorough: []Grid{{"n": {1, 2}, "L": {2}, "lens": rng(0, 8), "plen": {1, 64, 4096, 16000}},
 			{"n": {3}, "L": {2}, "lens": rng(0, 26), "plen": {64, 4096}}},
@@ -378,5 +391,11 @@ func apiSpecs() []*HarnessSpec {
 			{"n": {2}, "L": {2}, "lens": rng(0, 8), "opt": {8, 9}, "enc": {1}, "hdr": {0}, "lq": {1, 2}, "alpha": {1}},
 			{"n": {3}, "L": {2}, "lens": rng(0, 26), "opt": {0, 2, 8}, "enc": {1}, "hdr": {0}, "lq": {1, 2, 3}}},
 		Note: "message of the current builder rewritten by writer model G.2 into the 0.5.10/0.5.11 layout (nopref / innpref / allpref) -> real Unmarshal (before000512InnerPrefixTobitstr, before000512FixLeafSize, init) -> same answers as the index it encodes for a symbolic query; exact absent-key answers and scans for allpref"})
+	out = append(out, &HarnessSpec{Name: "l3_legacy", Pkg: "trie", Property: "C06", Witness: 1,
+		Quick: []Grid{{"skel": {0, 1, 2, 8}, "model": {0}, "variant": {0, 1, 3}, "opt": {0}, "lq": {1}},
+			{"skel": {0, 1, 8, 9}, "model": {1}, "variant": {0}, "opt": {0, 2, 8}, "lq": {1}}},
+		Thorough: []Grid{{"skel": {0, 1, 2, 3, 4, 7, 8, 9}, "model": {0}, "variant": {0, 1, 3, 4}, "opt": {0}, "lq": {1, 2}},
+			{"skel": {0, 1, 2, 3, 4, 5, 7, 8, 9}, "model": {1}, "variant": {0}, "opt": {0, 2, 8, 9}, "lq": {1, 2, 3}}},
+		Note: "L3: skeleton key sets (incl. 64 and 128 leaves, prefix keys, bytes >= 0x80) written by both writer models and loaded; every key answers, and a symbolic query answers as on the index built by the current code"})
 	return out
 }
